@@ -35,7 +35,11 @@ type c15Case struct {
 	HSend int  `json:"hsend"`
 	Bound int  `json:"bound"`
 	// RR: explore around the round-robin default scheduler instead of run-to-block.
-	RR     bool  `json:"rr,omitempty"`
+	RR bool `json:"rr,omitempty"`
+	// Ideal: idealised transport that notices the end of the request context
+	// at once in every state (default: HTTP/2 semantics as measured on
+	// net/http, see memhttp.Transport.PromptCancel).
+	Ideal  bool  `json:"ideal,omitempty"`
 	Prefix []int `json:"prefix,omitempty"`
 }
 
@@ -49,6 +53,9 @@ func (k c15Case) key() string {
 	}
 	if k.RR {
 		x += "+rr"
+	}
+	if k.Ideal {
+		x += "+ideal"
 	}
 	return fmt.Sprintf("%s/%s/%s/%s/%s/r%ds%d/d%d", k.Proto, k.Kind, k.ReqMode, k.Client, x, k.HRecv, k.HSend, k.Bound)
 }
@@ -107,6 +114,9 @@ type c15Obs struct {
 	HandlerStuck  bool
 	Stacks        string
 	TimeoutHdr    string
+	// CancelDeferred: the transport did not notice the end of the context at
+	// the moment it happened (HTTP/2, body sender blocked on an idle request body)
+	CancelDeferred bool
 }
 
 const c15Deadline = 3 * time.Second
@@ -127,7 +137,7 @@ func c15Body(k c15Case, s *bsched.Sched) any {
 		obs.HandlerErr = ctx.Err().Error()
 		return ctx.Err()
 	})
-	tr := &memhttp.Transport{Handler: h, Proto: 2, ReqMode: k.ReqMode, Gate: s.Gate}
+	tr := &memhttp.Transport{Handler: h, Proto: 2, ReqMode: k.ReqMode, Gate: s.Gate, PromptCancel: k.Ideal}
 	cl := NewClient(tr, Cfg{Proto: k.Proto, Comp: CompNone})
 	var ctx context.Context
 	var cancel context.CancelFunc
@@ -232,6 +242,7 @@ func c15Body(k c15Case, s *bsched.Sched) any {
 	}
 	if ex := tr.Last(); ex != nil {
 		obs.HandlerDone = ex.IsDone()
+		obs.CancelDeferred = ex.WasCancelDeferred()
 		if v := ex.ReqHeader.Get("Grpc-Timeout"); v != "" {
 			obs.TimeoutHdr = v
 		} else {
@@ -260,6 +271,9 @@ func c15Judge(c *ev.Collector, k c15Case, x *bsched.Exec) string {
 	kk := k
 	kk.Prefix = x.TrimmedChoices()
 	viol := func(clause, outcome string, extra []string, format string, args ...any) {
+		if obs.CancelDeferred {
+			extra = append(extra, "cancel-unnoticed-by-h2-transport")
+		}
 		c.Violation("TestC15", clause, outcome, append(k.tags(), extra...), kk, "%s [%s]: "+format+"\n  ops: %s\n  schedule: %v", append(append([]any{k.key(), schedLine(x)}, args...), opsString(obs.Ops), traceOf(x, 400))...)
 	}
 	if x.Horizon {
@@ -368,6 +382,12 @@ func c15Cases(thorough bool) []c15Case {
 					}
 				}
 			}
+		}
+	}
+	for _, k := range append([]c15Case(nil), out...) {
+		if k.ReqMode == memhttp.ReqEager {
+			k.Ideal = true
+			out = append(out, k)
 		}
 	}
 	return out
